@@ -155,7 +155,9 @@ Definition eligible (k : wr_case) : bool :=
   end.
 (* compressed by the plugin (Content-Encoding gzip observed although the handler did not set one) => eligible *)
 Definition c15_conditions (k : wr_case) : bool :=
-  if has_gz (w_chain k) && Z.eqb (nth 5 (w_obs k) 0) 1 && negb (script_sets_ce (w_script k)) then eligible k else true.
+  (* only when the handler ran: a rejection produced by an inner plugin (size_limit's 413 text) is that plugin's
+     own response, which gzip may compress like any other *)
+  if has_gz (w_chain k) && Z.eqb (nth 0 (w_obs k) 0) 1 && Z.eqb (nth 5 (w_obs k) 0) 1 && negb (script_sets_ce (w_script k)) then eligible k else true.
 (* not eligible => delivered byte- and header-identical to the direct exchange *)
 Definition c15_identical_unless_eligible (k : wr_case) : bool :=
   if has_gz (w_chain k) && negb (has_sl (w_chain k)) && negb (eligible k) && Z.eqb (nth 0 (w_obs k) 0) 1 && wf_script (w_script k)
